@@ -692,3 +692,22 @@ def rule_vecclone(text):
             apps.append(_app("R-clone", text, mm.start(), mm.end(), new, "shim: Vec<T: Copy>::clone is element-wise copy"))
             text = text[:mm.start()] + new + text[mm.end():]
     return text, apps
+
+
+def rule_minmax(text):
+    """`A.min(B)` on integers -> min_u64(A, B)"""
+    apps = []
+    while True:
+        m = mask(text)
+        hit = None
+        for dot, op, cl in _method_calls(text, m, "min"):
+            rs = _receiver_start(m, dot)
+            recv = text[rs:dot].strip()
+            arg = text[op + 1:cl].strip()
+            hit = (rs, cl + 1, "min_u64(%s, %s)" % (recv, arg))
+            break
+        if not hit:
+            return text, apps
+        a, b, new = hit
+        apps.append(_app("R-min", text, a, b, new, "definition of Ord::min on u64"))
+        text = text[:a] + new + text[b:]
